@@ -68,7 +68,7 @@ func (p *Parser) deconstructValue(rv reflect.Value, numBuffers *int) (buffers []
 		sk := rv.Type().Elem().Kind()
 
 		switch sk {
-		case reflect.Ptr, reflect.Interface, reflect.Struct, reflect.Slice:
+		case reflect.Ptr, reflect.Interface, reflect.Struct, reflect.Slice, reflect.Map:
 			sl := rv.Len()
 			for i := 0; i < sl; i++ {
 				el := rv.Index(i)
@@ -330,7 +330,7 @@ func (r *reconstructor) reconstructValue(rv reflect.Value) error {
 		sk := rv.Type().Elem().Kind()
 
 		switch sk {
-		case reflect.Ptr, reflect.Interface, reflect.Struct, reflect.Slice:
+		case reflect.Ptr, reflect.Interface, reflect.Struct, reflect.Slice, reflect.Map:
 			sl := rv.Len()
 			for i := 0; i < sl; i++ {
 				el := rv.Index(i)
@@ -573,7 +573,7 @@ func hasBinary(values ...reflect.Value) bool {
 			sk := rv.Type().Elem().Kind()
 
 			switch sk {
-			case reflect.Ptr, reflect.Interface, reflect.Struct, reflect.Slice:
+			case reflect.Ptr, reflect.Interface, reflect.Struct, reflect.Slice, reflect.Map:
 				l := rv.Len()
 				for i := 0; i < l; i++ {
 					val := rv.Index(i)
